@@ -2463,7 +2463,8 @@ class BDD(dd._abc.BDD[_Ref]):
             else:
                 j = self.add_var(var)
             level_map[i] = j
-        umap = dict()
+        umap = {1: 1}
+            # the terminal node can be a root
         for u in succ:
             # already added ?
             if u in umap:
